@@ -23,12 +23,12 @@ RECURSIVE PathsOf(_)
 PathsOf(t) == {<<>>} \cup UNION { { <<i>> \o q : q \in PathsOf(t.ch[i]) } : i \in 1..Len(t.ch) }
 
 (* pre-order sequence of paths *)
-RECURSIVE PreOrder(_)
-PreOrder(t) ==
+RECURSIVE PreOrderAt(_, _)
+PreOrderAt(t, pre) ==
   LET RECURSIVE Cat(_)
-      Cat(i) == IF i > Len(t.ch) THEN <<>>
-                ELSE [k \in 1..Len(PreOrder(t.ch[i])) |-> <<i>> \o PreOrder(t.ch[i])[k]] \o Cat(i + 1)
-  IN <<<<>>>> \o Cat(1)
+      Cat(i) == IF i > Len(t.ch) THEN <<>> ELSE PreOrderAt(t.ch[i], Append(pre, i)) \o Cat(i + 1)
+  IN <<pre>> \o Cat(1)
+PreOrder(t) == PreOrderAt(t, <<>>)
 
 RECURSIVE Yield(_)
 Yield(t) ==
